@@ -100,8 +100,8 @@ impl LegacyV1_6 {
             return Err(ProtocolFormat.context("Expected 0xFF"));
         }
 
-        let length = buffer.read::<u16>()? * 2;
-        error_by_expected_size((length + 3) as usize, data.len())?;
+        let length = buffer.read::<u16>()? as usize * 2;
+        error_by_expected_size(length + 3, data.len())?;
 
         if !Self::is_protocol(&mut buffer)? {
             return Err(ProtocolFormat.context("Not legacy 1.6 protocol"));
